@@ -165,6 +165,25 @@ def run_case(idx, rng, P, rep):
             continue
         rep.count('roundtrips')
         check_values('object', expected, rebuilt, text)
+        # ---- the same text once more, after the first rebuilt object has been used (its containers edited in place): what
+        #      a text deserializes to depends on the text alone
+        edited = 0
+        for k in list(kwargs):
+            v = getattr(rebuilt, k)
+            for c_ in (v, kwargs[k]):
+                if type(c_) is list:
+                    c_.append('edited-after-the-first-deserialization')
+                    edited += 1
+                elif type(c_) is dict:
+                    c_['edited-after-the-first-deserialization'] = 1
+                    edited += 1
+        if edited:
+            try:
+                again = cls(**cls.param.deserialize_parameters(text))
+                rep.count('second_deserializations_after_edits')
+                check_values('object-again', expected, again, text)
+            except Exception as e:   # noqa: BLE001
+                viol('rebuild-raised', 'object-again', f'second deserialization of the same text raised {type(e).__name__}: {e}', st=expected)
         # ---- subset
         names = [s['name'] for s in specs]
         sub = rng.sample(names, rng.randint(1, len(names)))
